@@ -944,3 +944,24 @@ def value_arms(ctx, body, sym, e, at_block):
         if out:
             return out
     return [(ctx.guards_at(body, at_block), e, at_block)]
+
+
+def g_not_variant(a, name):
+    """`a` is known NOT to be variant `name`: `a != E::name`, an otherwise/isnot arm excluding it, or an arm for other variant(s)."""
+    pa = _as_pred(a)
+
+    def pred(g):
+        if g.kind == "rel" and g.op == "Ne":
+            for x, y in ((g.a, g.b), (g.b, g.a)):
+                if pa(x) and mentions(y, lambda s_: s_[0] == "agg" and s_[2] == name):
+                    return True
+            return False
+        if g.kind == "isnot":
+            return name in g.name and pa(g.a)
+        if g.kind == "is":
+            return g.name != name and g.name not in ("Some", "None", "Ok", "Err", "Continue", "Break") and pa(g.a)
+        if g.kind == "oneof":
+            return name not in g.name and pa(g.a)
+        return False
+
+    return pred
